@@ -11,12 +11,25 @@ use config::*;
 use state::*;
 use utils::*;
 
+mod c05;
+mod framework;
 mod gate;
+mod irc;
 mod net;
 mod rt;
 mod world;
 
+use framework::{Check, Tier};
+use std::sync::Arc;
 use world::*;
+
+fn registry() -> Vec<Arc<dyn Check>> {
+    vec![Arc::new(c05::C05)]
+}
+
+fn find_check(id: &str) -> Option<Arc<dyn Check>> {
+    registry().into_iter().find(|c| c.id() == id)
+}
 
 fn smoke(seed: u64) -> String {
     rt::run_sim(seed, move || async move {
@@ -47,13 +60,59 @@ fn smoke(seed: u64) -> String {
     }).unwrap()
 }
 
+fn env_u64(k: &str) -> Option<u64> {
+    std::env::var(k).ok().and_then(|v| v.trim().parse::<u64>().ok())
+}
+
 fn main() {
     let args: Vec<String> = std::env::args().collect();
-    if args.len() >= 2 && args[1] == "smoke" {
-        let seed = args.get(2).and_then(|s| s.parse().ok()).unwrap_or(1);
-        print!("{}", smoke(seed));
-        return;
+    let cmd = args.get(1).map(|s| s.as_str()).unwrap_or("");
+    match cmd {
+        "smoke" => {
+            let seed = args.get(2).and_then(|s| s.parse().ok()).unwrap_or(1);
+            print!("{}", smoke(seed));
+        }
+        "check" => {
+            let id = args.get(2).cloned().unwrap_or_default();
+            let tier = match std::env::var("VERIF_TIER").ok().as_deref().or(args.get(3).map(|s| s.as_str())) {
+                Some("thorough") => Tier::Thorough,
+                _ => Tier::Quick,
+            };
+            let tier = match args.get(3).map(|s| s.as_str()) {
+                Some("thorough") => Tier::Thorough,
+                Some("quick") => Tier::Quick,
+                _ => tier,
+            };
+            let seed = env_u64("VERIF_SEED").unwrap_or(framework::DEFAULT_SEED);
+            let jobs = env_u64("VERIF_JOBS").unwrap_or(16) as usize;
+            let runs = env_u64("VERIF_RUNS");
+            match find_check(&id) {
+                Some(c) => std::process::exit(framework::run_check(c, tier, seed, jobs.max(1), runs)),
+                None => {
+                    eprintln!("unknown check id {}", id);
+                    std::process::exit(2);
+                }
+            }
+        }
+        "replay" => {
+            let path = args.get(2).cloned().unwrap_or_default();
+            match framework::read_replay(&path) {
+                Ok((t, _)) => match find_check(&t.check) {
+                    Some(c) => std::process::exit(framework::replay_file(c, &path)),
+                    None => {
+                        eprintln!("unknown check id {} in replay file", t.check);
+                        std::process::exit(2);
+                    }
+                },
+                Err(e) => {
+                    eprintln!("{}", e);
+                    std::process::exit(2);
+                }
+            }
+        }
+        _ => {
+            eprintln!("usage: sircsim check <Cxx> [quick|thorough] | replay <file> | smoke [seed]");
+            std::process::exit(2);
+        }
     }
-    eprintln!("usage: sircsim smoke [seed]");
-    std::process::exit(2);
 }
